@@ -56,9 +56,9 @@ def gen_row(rng, x=None):
     if rng.random() < 0.5:
         # element consistent with the name (two-letter names equal to the element are left-aligned)
         elem = name if (len(name) <= 2 and name in ELEMS) else (name.lstrip('0123456789')[:1] or 'C')
-    row = [rng.choice([1, 42, 99999, -9999, rng.randint(-9999, 99999)]), name, rng.choice(['', '', 'A', 'B']),
+    row = [rng.choice([1, 42, 99999, -9999, rng.randint(-9999, 99999)]), name, rng.choice(['', '', 'A', 'B', '1']),
            rng.choice(['ALA', 'DA', 'U', 'GLY', 'HOH']), rng.choice(['A', 'B', 'z', '1', '']),
-           rng.choice([1, -999, 9999, rng.randint(-999, 9999)]), rng.choice(['', '', 'A', 'C']),
+           rng.choice([1, -999, 9999, rng.randint(-999, 9999)]), rng.choice(['', '', 'A', 'C', '1', '0', '9']),
            coord(rng) if x is None else x, coord(rng), coord(rng),
            rng.choice([1.0, 0.5, round(rng.uniform(-99.99, 999.99), 2), rng.uniform(-99.99, 999.99)]),
            rng.choice([0.0, 25.3, round(rng.uniform(-99.99, 999.99), 2), rng.uniform(-99.99, 999.99)]),
@@ -75,6 +75,21 @@ def cases(ctx):
     out = []
     for _ in range(ctx.scale(900, 20000)):
         out.append({'op': 'export', 'row': row_json(gen_row(rng)), 'family': 'random'})
+    # full-width fields of the same character class side by side (one-column text fields may be digits: insertion code '1', altLoc '2',
+    # chain '7'): 5-digit serial before a name starting with a digit, digit chain before a 4-digit / minus-and-3-digit resSeq followed by a
+    # digit insertion code, 8-column coordinates next to each other (round-7 seed C02-r7m1: a reader that joins resSeq and a digit iCode)
+    for k in range(ctx.scale(40, 400)):
+        row = gen_row(rng)
+        row[0] = rng.randint(10000, 99999)
+        row[1] = rng.choice(['1HB', '2HG1', 'HD21', '1HD2', 'CA'])
+        row[2] = rng.choice(['1', '2', 'A'])
+        row[3] = rng.choice(['ALA', 'TRP', 'DA'])
+        row[4] = rng.choice(['1', '7', 'A'])
+        row[5] = rng.choice([rng.randint(1000, 9999), rng.randint(-999, -100), 9999, 1000, -100])
+        row[6] = rng.choice(['1', '0', '9', '5'])
+        row[7], row[8] = rng.choice([9999.125, -999.125, 1234.567]), rng.choice([9999.25, -999.25, 7654.321])
+        row[12] = 'H' if row[1][0].isdigit() or row[1].startswith('H') else 'C'
+        out.append({'op': 'export', 'row': row_json(row), 'family': 'adjacent-full-fields'})
     # every multiple of 0.0005 in a +-0.01 window around each threshold and range end
     step = ctx.scale(1, 1)
     for t in THRESH + ENDS:
